@@ -16,6 +16,8 @@
  *   k <n>                           gd_mplex_lookback                         -> "k"
  *   r                               D->recurse_level (internal.h peek)        -> "r <level>"
  *   a <P|L|B|M|X> <field> <args>    gd_alter_phase/lincom(1 input)/bit/multiply/mplex  -> "a <ret> <err>"
+ *   a F <frameoffset> <recode> | a E <b|l> <recode> | a N <encoding> <recode>   gd_alter_frameoffset/endianness/encoding, all fragments
+ *   a R <field> <type> <recode> | a V <field> <new name> | a O <field> <fragment>   gd_alter_raw(type) / gd_rename(DATA|UPDB) / gd_move(DATA)
  *   C <const> <int>                 gd_put_constant(GD_INT64)                 -> "C <ret> <err>"
  *
  * With -O every output line is followed by " | <name>=<0|1> ..." giving, for every
@@ -190,6 +192,15 @@ int main(int argc, char **argv)
           case 'B': r = gd_alter_bit(D, tok[2], tok[3], atoi(tok[4]), atoi(tok[5])); break;
           case 'M': r = gd_alter_multiply(D, tok[2], tok[3], tok[4]); break;
           case 'X': r = gd_alter_mplex(D, tok[2], tok[3], tok[4], atoi(tok[5]), atoi(tok[6])); break;
+          /* changes that move or rewrite data files (recode/move flag given), on all fragments */
+          case 'F': r = gd_alter_frameoffset64(D, strtoll(tok[2], NULL, 10), GD_ALL_FRAGMENTS, atoi(tok[3])); break;
+          case 'E': r = gd_alter_endianness(D, tok[2][0] == 'b' ? GD_BIG_ENDIAN : GD_LITTLE_ENDIAN, GD_ALL_FRAGMENTS, atoi(tok[3])); break;
+          case 'N': r = gd_alter_encoding(D, !strcmp(tok[2], "none") ? GD_UNENCODED : !strcmp(tok[2], "text") ? GD_TEXT_ENCODED :
+                          !strcmp(tok[2], "gzip") ? GD_GZIP_ENCODED : !strcmp(tok[2], "bzip2") ? GD_BZIP2_ENCODED :
+                          !strcmp(tok[2], "lzma") ? GD_LZMA_ENCODED : GD_SIE_ENCODED, GD_ALL_FRAGMENTS, atoi(tok[3])); break;
+          case 'R': r = gd_alter_raw(D, tok[2], ty(tok[3]), 0, atoi(tok[4])); break;
+          case 'V': r = gd_rename(D, tok[2], tok[3], GD_REN_DATA | GD_REN_UPDB); break;
+          case 'O': r = gd_move(D, tok[2], atoi(tok[3]), GD_REN_DATA); break;
         }
         printf("a %d %d", r, gd_error(D)); eol();
         break; }
